@@ -37,6 +37,34 @@ var properties = map[string]propSpec{
 		Outside: []string{"payload lengths other than the listed ones", "lists longer than 3", "unique ids and manipulation byte fields (C03/C19)"},
 		Stubs:   append([]string{"keys and signatures are an ideal scheme (transparent injective encoding of key identity and digest); curve arithmetic not interpreted", "time.Now fixed to 2024-03-05 12:00:00 UTC, time.Local = UTC, serial fixed (not the subject here)", "JSON-schema validation and YAML parsing are not entered: the harness starts at the typed v1 structs"}, commonStubs...),
 	},
+	"C07": {
+		ID: "C07",
+		Harnesses: []harnessSpec{
+			{Pkg: "generator/config/v1", Fn: "vhKeyUsage", Reach: []string{"built"}, What: "every non-empty subset of the 7 key-usage flags (rotated order, optional duplicate) vs. the DER named bit list"},
+			{Pkg: "generator/config/v1", Fn: "vhBasicConstraints", Reach: []string{"built"}, What: "cA symbolic, pathLen 0..255 symbolic vs. SEQUENCE{BOOLEAN DEFAULT FALSE, INTEGER}"},
+			{Pkg: "generator/config/v1", Fn: "vhSAN", Reach: []string{"built", "rejected"}, Quick: map[string]int{"N": 2}, Thorough: map[string]int{"N": 3}, What: "1..N names over {mail,dns,ip}, name bytes and IP octets (000..999) symbolic vs. GeneralNames; octets > 255 must be rejected"},
+			{Pkg: "generator/config/v1", Fn: "vhAIA", Reach: []string{"built"}, Quick: map[string]int{"N": 3}, Thorough: map[string]int{"N": 4}, What: "1..N OCSP URIs with symbolic bytes vs. SEQUENCE OF AccessDescription"},
+			{Pkg: "generator/config/v1", Fn: "vhEKU", Reach: []string{"built"}, Quick: map[string]int{"N": 2}, Thorough: map[string]int{"N": 3}, What: "1..N usages over the six names and custom OIDs 1.2.3.d vs. SEQUENCE OF OID (id-kp arcs from RFC 5280)"},
+			{Pkg: "generator/config/v1", Fn: "vhOcspNoCheck", Reach: []string{"built"}, What: "ocspNoCheck = NULL"},
+			{Pkg: "generator/config/v1", Fn: "vhPolicies", Reach: []string{"built"}, Quick: map[string]int{"P": 1, "Q": 2}, Thorough: map[string]int{"P": 2, "Q": 2}, What: "certificatePolicies: 1..P policies x 0..Q qualifiers (cps / userNotice with every non-empty subset of organization, numbers, text) vs. RFC 5280 4.2.1.4"},
+			{Pkg: "generator/config/v1", Fn: "vhAKIExplicit", Reach: []string{"built"}, Quick: map[string]int{"L": 4}, Thorough: map[string]int{"L": 20}, What: "authorityKeyIdentifier with an explicit id of 0..L symbolic bytes vs. SEQUENCE{[0] id}"},
+		},
+		Bounds:  "see the per-harness lines; strings of 2 symbolic bytes, lists up to 2-3 (quick) / 3-4 (thorough) entries",
+		Outside: []string{"certificatePolicies qualifier trees and the hashed key identifiers are decided in separate harnesses (vhPolicies, C01 harness) when present", "empty content lists (treated by gopki as 'no content')", "name syntax (IDNA, address syntax): gopki copies bytes"},
+		Stubs:   commonStubs,
+	},
+	"C16": {
+		ID: "C16",
+		Harnesses: []harnessSpec{
+			{Pkg: "generator/cert", Fn: "vhProfessionInfo", Reach: []string{"encoded"}, What: "ProfessionInfo.marshal for every subset of its members (naming authority subsets, 0..2 items, oid, registration number, additional info), strings symbolic"},
+			{Pkg: "generator/cert", Fn: "vhAdmissions", Reach: []string{"encoded"}, What: "Admissions.marshal: authority of every GeneralName kind or none, every NamingAuthority subset, 0..2 profession infos"},
+			{Pkg: "generator/cert", Fn: "vhAdmissionTop", Reach: []string{"encoded"}, Quick: map[string]int{"N": 2}, Thorough: map[string]int{"N": 3}, What: "NewAdmission: top-level authority of every kind or none x 1..N admissions"},
+			{Pkg: "generator/config/v1", Fn: "vhAdmissionConvert", Reach: []string{"built"}, Quick: map[string]int{"A": 1}, Thorough: map[string]int{"A": 2}, What: "v1 AdmissionExtension.Builder through convert(): both authority fields over every kind, naming authority, full profession info"},
+		},
+		Bounds:  "the AdmissionSyntax tree is covered level by level (the encoder is compositional): ProfessionInfo with all 2^3 x 3 x 2^3 member subsets; Admissions with 5 authority kinds x 8 naming-authority subsets x 0..2 infos; AdmissionSyntax with 5 authority kinds x 1..2 (3) admissions; configuration layer 5 x 5 authority kinds; strings of 2 symbolic ASCII bytes",
+		Outside: []string{"the full product of all optional members across levels in one tree", "strings longer than 2 bytes (long-form lengths)", "non-ASCII text"},
+		Stubs:   commonStubs,
+	},
 	"C08": {
 		ID: "C08",
 		Harnesses: []harnessSpec{
